@@ -13,6 +13,7 @@
 // GetStartStates; finals/edges: the core); d? is the same result as printed by the public
 // DumpToString and parsed back.
 #include "nfa_common.hh"
+#include <unistd.h>
 using namespace vd;
 
 static void showMap(std::ostringstream& os, const char* tag, const VATA::AutBase::StateToStateMap& m) {
@@ -23,6 +24,7 @@ static void showMap(std::ostringstream& os, const char* tag, const VATA::AutBase
 int main() {
 	std::string line;
 	while (std::getline(std::cin, line)) {
+		alarm(20);   // watchdog: a case that does not return kills the driver (SIGALRM), reported as a hang of this case
 		guarded([&]() {
 			Toks t(line); t.expect("ops"); char mode = t.word()[0];
 			NFA na = readW(t), nb = readW(t);
